@@ -28,15 +28,27 @@
 #define BE_WRITE16 2
 #define BE_READ8   3
 #define BE_WRITE8  4
-extern size_t g_be_calls;        /* number of back-end calls so far */
-extern int g_be_kind;            /* BE_* of the last call */
-extern uint32_t g_be_addr;       /* its address argument */
-extern size_t g_be_n;            /* its block-size argument (words) */
-extern const void *g_be_buf;     /* its buffer argument */
-extern uint8_t g_be_in;          /* write: octet g_k of the buffer as the back end saw it */
-extern uint8_t g_be_out;         /* read: octet g_k of what the back end delivered */
-extern int g_be_status;          /* the verdict it returned ... */
-extern uint32_t g_be_raddr;      /* ... and the address reported with it */
+struct st_be_log {
+  size_t calls;        /* number of back-end calls so far */
+  int kind;            /* BE_* of the last call */
+  uint32_t addr;       /* its address argument */
+  size_t n;            /* its block-size argument (words) */
+  const void *buf;     /* its buffer argument */
+  uint8_t in;          /* write: octet g_k of the buffer as the back end saw it */
+  uint8_t out;         /* read: octet g_k of what the back end delivered */
+  int status;          /* the verdict it returned ... */
+  uint32_t raddr;      /* ... and the address reported with it */
+};
+extern struct st_be_log g_be;   /* one object: one assigns target */
+#define g_be_calls g_be.calls
+#define g_be_kind g_be.kind
+#define g_be_addr g_be.addr
+#define g_be_n g_be.n
+#define g_be_buf g_be.buf
+#define g_be_in g_be.in
+#define g_be_out g_be.out
+#define g_be_status g_be.status
+#define g_be_raddr g_be.raddr
 /* frame block as the receiver left it (set by the harness, tied to the frame
  * by the contracts' requires): base, allocated size, octets in use
  * (sizeof(RPFrame) + raw frame length) */
@@ -63,15 +75,19 @@ extern size_t g_al_bs;           /* block size the allocator is configured for *
    && (size_t)__CPROVER_POINTER_OFFSET(buf) - (size_t)__CPROVER_POINTER_OFFSET(g_blk_base) <= (hi) - (len))
 #endif
 
+/* what a read delivers: the octet at the ghost index is a fresh arbitrary
+ * value (so "the answer carries what the back end delivered" is decided for
+ * every octet position), the other octets keep the block's content, which the
+ * harness leaves arbitrary.  -DBE_FULL_HAVOC (thorough tier) overwrites the
+ * whole range with arbitrary content first. */
 #if VERIF_IS_NATIVE
 #define BE_DELIVER(buf, len, octet) do { if ((len) > 0) memset((buf), 0xA5, (len)); \
   if (g_k < (len)) ((unsigned char *)(buf))[g_k] = (octet); } while (0)
-#elif defined(BE_SIMPLE_DELIVER)
-#define BE_DELIVER(buf, len, octet) do { \
+#elif defined(BE_FULL_HAVOC)
+#define BE_DELIVER(buf, len, octet) do { if ((len) > 0) __CPROVER_havoc_slice((buf), (len)); \
   if (g_k < (len)) ((unsigned char *)(buf))[g_k] = (octet); } while (0)
 #else
-/* arbitrary content everywhere; the octet at the ghost index is named */
-#define BE_DELIVER(buf, len, octet) do { if ((len) > 0) __CPROVER_havoc_slice((buf), (len)); \
+#define BE_DELIVER(buf, len, octet) do { \
   if (g_k < (len)) ((unsigned char *)(buf))[g_k] = (octet); } while (0)
 #endif
 
